@@ -208,12 +208,46 @@ Proof.
   exact (symtab_case_insensitive t3 a sa b sb R3 Fa3 Fb).
 Qed.
 
+Theorem insert_case_insensitive_full : forall t a t1 sa ops t2 b t3 sb,
+  reachable t -> insert low t a = Some (t1, sa) -> run low t1 ops = Some t2 ->
+  insert low t2 b = Some (t3, sb) ->
+  s_name sa = a /\ s_name sb = b
+  /\ (is_ext a = false -> is_ext b = false -> (s_id sa = s_id sb <-> low a = low b))
+  /\ (is_ext a = true -> (s_id sa = s_id sb <-> a = b)).
+Proof.
+  intros t a t1 sa ops t2 b t3 sb Rt Ha Ho Hb.
+  split; [exact (insert_returns_spelling t a t1 sa Rt Ha)|].
+  split; [|exact (insert_case_insensitive t a t1 sa ops t2 b t3 sb Rt Ha Ho Hb)].
+  destruct (reachable_insert t a t1 sa Rt Ha) as [[o1 R1] _].
+  apply (insert_returns_spelling t2 b t3 sb); [|exact Hb].
+  exists (o1 ++ ops). rewrite run_app, R1. exact Ho.
+Qed.
+
 (* ------------------------------------------------------------------ *)
 (* keywords: `Symbols::from_standard` inserts the keyword names first and asserts id = index;
    `insert_or_keyword` decides "keyword" by `symbol.id < keywords.len()` *)
 
 Definition kw_table_ok (kws : list name) : Prop :=
   NoDup kws /\ forall k, In k kws -> is_ext k = false /\ low k = k.
+
+Fixpoint nodupb (l : list name) : bool :=
+  match l with [] => true | x :: r => negb (existsb (name_eqb x) r) && nodupb r end.
+Lemma nodupb_ok : forall l, nodupb l = true -> NoDup l.
+Proof.
+  induction l as [|x r IH]; intros H; [constructor|]. cbn [nodupb] in H.
+  apply andb_prop in H. destruct H as [H1 H2]. constructor; [|apply IH; exact H2].
+  intros I. apply negb_true_iff in H1.
+  assert (X : existsb (name_eqb x) r = true) by (apply existsb_exists; exists x; split; [exact I|apply name_eqb_refl]).
+  congruence.
+Qed.
+Definition kw_table_okb (kws : list name) : bool :=
+  nodupb kws && forallb (fun k => negb (is_ext k) && name_eqb (low k) k) kws.
+Lemma kw_table_okb_ok : forall kws, kw_table_okb kws = true -> kw_table_ok kws.
+Proof.
+  intros kws H. apply andb_prop in H. destruct H as [H1 H2]. split; [apply nodupb_ok; exact H1|].
+  intros k I. rewrite forallb_forall in H2. specialize (H2 k I). apply andb_prop in H2. destruct H2 as [A B].
+  apply negb_true_iff in A. apply name_eqb_true_iff in B. split; assumption.
+Qed.
 
 Theorem keyword_lookup : forall kws ops t0 t n t' s,
   kw_table_ok kws -> run low [] kws = Some t0 -> run low t0 ops = Some t ->
